@@ -86,6 +86,32 @@ theorem bal_pipe (fuel : Nat) (ih : Bal fuel) : ∀ s p, (execPipeline (fuel+1) 
     obtain ⟨s1, r⟩ := x
     cases r <;> simp_all
 
+theorem finishPoll_stack (prev : Nat) (s2 : St) (r t : Res) : (finishPoll prev s2 r t).1.stack = s2.stack := by
+  unfold finishPoll
+  cases t with
+  | continue_ => cases r <;> simp
+  | outOfFuel => cases r <;> simp
+  | break_ d =>
+    cases d with
+    | interrupt x => cases x <;> cases r <;> simp
+    | _ => cases r <;> simp
+
+theorem pollWith_stack (run : St → List Item → St × Res) (hrun : ∀ s l, (run s l).1.stack = s.stack)
+    (s1 : St) (r : Res) : (pollWith run s1 r).1.stack = s1.stack := by
+  unfold pollWith
+  cases r with
+  | outOfFuel => rfl
+  | continue_ =>
+    simp only
+    cases s1.trapDue with
+    | none => rfl
+    | some body => simp only; rw [finishPoll_stack]; simp [St.pop, St.push, hrun]
+  | break_ d =>
+    simp only
+    cases s1.trapDue with
+    | none => rfl
+    | some body => simp only; rw [finishPoll_stack]; simp [St.pop, St.push, hrun]
+
 theorem leaveJc_stack (s s1 : St) (h : s1.stack = s.enterJc.stack) : (s.leaveJc s1).stack = s.stack := by
   unfold St.leaveJc St.enterJc at *
   split <;> simp_all [St.push, St.pop]
@@ -94,7 +120,10 @@ theorem bal_cmds (fuel : Nat) (ih : Bal fuel) : ∀ s cs, (execCommands (fuel+1)
   intro s cs
   match cs with
   | [] => simp [execCommands]
-  | [c] => simp [execCommands, ih.cmd]
+  | [c] =>
+    simp only [execCommands]
+    rw [pollWith_stack _ (fun s l => ih.list s l)]
+    exact ih.cmd s c
   | c :: d :: t =>
     simp only [execCommands]
     have h1 := ih.members s.enterJc (c :: d :: t) 0
@@ -240,6 +269,8 @@ theorem bal_cmd (fuel : Nat) (ih : Bal fuel) : ∀ s c, (execCmd (fuel+1) s c).1
   | redirErr k => simp only [execCmd]; cases k <;> simp
   | specialErr w st => simp [execCmd]
   | trapExit body => simp [execCmd]
+  | trapSig body => simp [execCmd]
+  | raise n => simp [execCmd]
   | group body => simp [execCmd, ih.list]
   | subshell body =>
     simp only [execCmd]
